@@ -109,6 +109,14 @@ def check_laws(res, L, rng, tag, reps, default_order):
             if not ok or abs(m2n - tgt) > 1e-12:
                 res.violate('normal() is not a positive multiple of M with mag2 = +-1', inp, [Nn.value.tolist(), m2n],
                             [(c * A.value).tolist(), tgt], dict(site, op='normal'))
+            # the same direction at other magnitudes (powers of two: exact in floating point), positive and negative leading coefficients alike
+            for e2 in (-45, -30, 40):
+                res.case(('normal-scaled', e2) + key[:2], nontrivial=nt)
+                As = (2.0 ** e2) * A
+                Ns = As.normal()
+                if not np.allclose(Ns.value, c * A.value, rtol=1e-12, atol=0):
+                    res.violate('normal() of a scaled multivector is not the positive multiple of M with mag2 = +-1', dict(inp, scale=f'2^{e2}'), Ns.value.tolist(),
+                                (c * A.value).tolist(), dict(site, op='normal-scaled', scale=e2))
 
 
 def check_signs_big(res, rng, dims):
